@@ -248,6 +248,33 @@ def mk_values(name, shape):
         v.methods[m] = (lambda m_: lambda itp, o, a, k: Sym('call', '%s.%s' % (o.name, m_), tuple(a), dict(k)))(m)
     v.hooks['getitem'] = lambda itp, o, i: Sym('sub', o, i)
 
+    def squeeze(itp, o, a, k):
+        # NumPy's rule on the known shape: the dimensions dropped are the singletons (all of them, or the ones asked for - which must be singletons); whichever way the
+        # caller names them (None, a position, a negative position, a tuple), the outcome is written with the sorted tuple of positions
+        ax = a[0] if a else k.get('axis')
+        shape = o.attrs['shape']
+        n = len(shape)
+        if not all(isinstance(x, int) for x in shape) or (a and k) or len(a) > 1 or any(kk != 'axis' for kk in k):
+            return Sym('call', '%s.squeeze' % o.name, tuple(a), dict(k))
+        if ax is None:
+            drop = [i for i, x in enumerate(shape) if x == 1]
+        else:
+            items = list(ax) if isinstance(ax, (tuple, list)) else [ax]
+            drop = []
+            for i in items:
+                if isinstance(i, bool) or not isinstance(i, int):
+                    raise Raised('TypeError')
+                if not -n <= i < n:
+                    raise Raised('AxisError')
+                if shape[i % n] != 1:
+                    raise Raised('ValueError')
+                if i % n in drop:
+                    raise Raised('ValueError')
+                drop.append(i % n)
+        drop = sorted(drop)
+        return mk_values('%s.squeeze(%s)' % (o.name, drop), [x for i, x in enumerate(shape) if i not in drop])
+    v.methods['squeeze'] = squeeze
+
     def fill(itp, o, a, k):
         o.name = '%s.filled(%s)' % (o.name, render(a[0]))
     v.methods['fill'] = fill
